@@ -70,7 +70,13 @@ def extract_item(src_text, item):
             raise AnchorLost("fn %s not found in %s" % (item["fn"], item.get("containers")))
         i = hits[nth - 1]
     else:
-        i, _ = _find_container(lines, item["header"], item.get("nth", 1), lo, hi, "item")
+        i, _ = _find_container(lines, item["header"], item.get("nth", 1), lo, hi, "item") if not item.get("line_item") else (None, None)
+        if item.get("line_item"):
+            rx = re.compile(item["header"])
+            hits = [k for k in range(lo, hi) if rx.search(lines[k])]
+            if not hits:
+                raise AnchorLost("line item /%s/ not found" % item["header"])
+            return lines[hits[0]], hits[0] + 1
     j = _match_block(lines, i)
     text = "\n".join(lines[i:j + 1])
     return text, i + 1
@@ -135,12 +141,25 @@ def splice_loops(body, loop_specs, fn_name):
 
 
 def apply_rewrites(text, rewrites, log, where):
+    """Rules may belong to a `group`: alternatives for the same site (e.g. the checked and the unchecked spelling of an
+    access); at least one rule of each group must fire, otherwise the anchor is lost."""
+    groups = {}
     for rw in rewrites:
-        new, n = re.subn(rw["pattern"], rw["replace"], text, flags=re.M | re.S if rw.get("dotall") else re.M)
+        flags = re.M | re.S if rw.get("dotall") else re.M
+        if rw.get("replace") is None:
+            n = len(re.findall(rw["pattern"], text, flags=flags))
+            new = text
+        else:
+            new, n = re.subn(rw["pattern"], rw["replace"], text, flags=flags)
         log.append({"rule": rw["id"], "where": where, "fired": n})
-        if n < rw.get("min", 0):
+        if "group" in rw:
+            groups[rw["group"]] = groups.get(rw["group"], 0) + n
+        elif n < rw.get("min", 0):
             raise AnchorLost("adapter rule %s did not fire in %s (expected >= %d)" % (rw["id"], where, rw["min"]))
         text = new
+    for g, n in groups.items():
+        if n < 1:
+            raise AnchorLost("no adapter rule of group %s fired in %s" % (g, where))
     return text
 
 
